@@ -21,6 +21,9 @@ Pipeline (DESIGN.md 7/C19):
        Monotone       paths(good + junk) >= paths(good); equal when the specification says all junk is
                       NonContributing
      I-layer conformance (DRIFT only): real path sets / panics = the model's.
+  2b. the same soups, signed, through scion_stack PathFetcherImpl::fetch_paths with scripted segment
+     sources (the soup split over two sources, plus a failing and a never-answering source under a
+     paused clock): Total / SelfConsistent / Monotone on its output, conformance with combine().
   3. record: seeded random soups (random topology + up to 24 mutated copies / duplicates / junk islands,
      at most 40 segments, 90-entry oversize segments) -> Trace_SegSoup: TLC classifies the junk with the
      specification's NonContributing and evaluates Total / Bounded / SelfConsistent / Monotone on the
@@ -201,6 +204,27 @@ def run(c):
     mid = cases[len(cases) // 2]
     c.sample({"mutations": hist_str(mid["h"]), "topology": mid["t"], "expected": [{"src": x["src"], "dst": x["dst"], "paths": len(x["paths"]), "allnc": x["allnc"]} for x in mid["x"]]})
     c.sample({"mutations": hist_str(cases[-1]["h"]), "topology": cases[-1]["t"]})
+
+    # ---- 2b. the same soups through PathFetcherImpl::fetch_paths with scripted segment sources ----
+    fbin = c.cargo_build("vh-stack", bin="segfetch")
+    foutp = os.path.join(c.work, "fetch_out.ndjson")
+    rc, so = c.sh([fbin, "replay", inp, foutp], timeout=6000)
+    if rc != 0:
+        c.fail_tool("segfetch harness failed rc=%s %s" % (rc, (getattr(c, "last_stderr", "") or "")[-400:]))
+    fres = read_ndjson(foutp)
+    if len(fres) != len(cases):
+        c.fail_tool("segfetch produced %d results for %d cases" % (len(fres), len(cases)))
+    fmism = 0
+    for h, o in zip(cases, fres):
+        for pv in o["pv"]:
+            report(c, pv, {"kind": "soup", "via": "fetch_paths", "case": h, "real": o.get("real")}, " after " + hist_str(h["h"]) + " on topology %d" % h["t"])
+        if not o["conf"]:
+            fmism += 1
+            c.drift("fetch_paths %s on topology %d differs from combine()/the model: %s" % (hist_str(h["h"]), h["t"], json.dumps(o.get("mis"))[:300]))
+        calls += 2 * len(o.get("real", []))
+    c.cov["fetch_paths_cases"] = len(fres)
+    c.cov["fetch_paths_conformance_mismatches"] = fmism
+    c.cov["evaluations"] = calls
 
     # ---- 3. random segment soup -> trace validation ----------------------------------------------
     ev = os.path.join(c.work, "trace_soup.ndjson")
